@@ -235,8 +235,9 @@ def r6_r7_r8(ctx: Context, loop: FuncInfo) -> None:
     if f is not None:
         for n in walk_no_nested(f.node):
             if isinstance(n, ast.If):
-                rets = [x for x in n.body if isinstance(x, ast.Return)]
-                if rets and isinstance(rets[0].value, ast.List) and len(rets[0].value.elts) == 1:
+                # either arm may be the collapsing one (`if AND: return [one]` / `if not AND: ... else: return [one]`)
+                rets = [x for arm in (n.body, n.orelse) for x in arm if isinstance(x, ast.Return) and isinstance(x.value, ast.List) and len(x.value.elts) == 1]
+                if rets:
                     decided = True
                     t = ast.unparse(n.test)
                     multi = "len(" in t and "condition_ids" in t
